@@ -31,3 +31,4 @@ PROP = {
     "assumptions": STD_ASSUME + ["six standard errors of the plain Monte-Carlo estimator V*sigma_f/sqrt(calls) (which the variance-reduction methods must not exceed) on a fixed PRNG stream; "
                                  "false-alarm probability of the order of 1e-6 per run across seeds"],
 }
+PROP["level_text"] += " Since then: about four thousand (thorough 1.6e5) calls per run, the zero function and constants down to 1e-250, the region vector handed to the library must read the same during and after every call, and three in ten history targets are narrow off-centre peaks that are exactly zero on one side of the midpoint in every dimension (Miser's fallback branch, Vegas iterations without information)."
